@@ -66,7 +66,7 @@ def down_job(ctx):
     exhaustive check, then every printed behaviour replayed on the real codec (also a job of C19: HTTP/1.1 flush and close)."""
     ctx.build("c08")
     mc = ctx.tlc("MCHttp1Down", "MCHttp1Down.cfg", workers=4, timeout=600,
-                 require_actions=("Take", "WriteSome", "GsTake", "GsClose", "SinkWrite", "Open", "Cancel", "Relisten", "Shutdown"))
+                 require_actions=("Take", "WriteSome", "GsTake", "GsClose", "SinkWrite", "SinkWriteRefused", "Open", "Cancel", "Relisten", "Shutdown"))
     ctx.spec_must_hold(mc)
     gen = ctx.tlc("MCHttp1Down", "MCHttp1Down.gen.cfg", name="MCHttp1Down.gen", workers=4, timeout=600, coverage=False)
     ctx.spec_must_hold(gen)
